@@ -146,6 +146,11 @@ def family(tier):
     F.append(("idle2", [x], {"a": cust([idle(1, "tap", 2)]), "b": pr}, [(0, "toggle")], 3, 3))
     F.append(("idle3", [x, y], {"a": cust([idle(1, "press", 3)]), "b": cust([idle(2, "tap", 2)], [op(1, "release")])},
               [(1, "tap")] if tier != "quick" else [], 3, 3))
+    # two on-idle entries pending at once on the SAME virtual key, different idle times (they fire on different
+    # ticks, so the set's iteration order does not matter): each entry fires once, firing one leaves the other armed
+    F.append(("idle_tt", [x], {"a": cust([idle(1, "tap", 2), idle(1, "tap", 3)]), "b": pr}, [(0, "toggle")], 3, 3))
+    F.append(("idle_pr", [x], {"a": cust([idle(1, "press", 2), idle(1, "release", 4)]), "b": cust([op(1, "toggle")])},
+              [(0, "tap")], 3, 3))
     # on-idle counts only real idle time: a pending hold-for-duration (of a virtual key that leaves no pressed key
     # behind: a held layer) is not idle time; the hold outlasts the idle time
     F.append(("idle_hfd_lwh", [VK_LWH(1), y], {"a": cust([hfd(1, 4)]), "b": cust([idle(2, "tap", 2)]), "p": probe()},
@@ -159,6 +164,8 @@ def family(tier):
               {"a": macro(("p", op(1, "press")), 2, ("p", op(1, "release"))), "b": cust([op(2, "tap")])},
               [(0, "toggle"), (1, "tap")] if tier != "quick" else [(0, "toggle")], 4, 3 if tier != "quick" else 2))
     if tier != "quick":
+        F.append(("idle_lwh_pr", [VK_LWH(1), y], {"a": cust([idle(1, "press", 2), idle(1, "release", 3), idle(2, "tap", 4)]),
+                                                  "p": probe()}, [(0, "toggle")], 3, 3))
         F.append(("idle_hfd_mac", [VK_MAC("y", "z"), x], {"a": cust([hfd(1, 3), idle(2, "tap", 2)]), "b": cust([idle(2, "press", 3)])},
                   [(1, "release")], 3, 3))
         F.append(("idle_hfd_lwh3", [VK_LWH(1), y], {"a": cust([hfd(1, 4), idle(2, "toggle", 3)]), "p": probe()},
@@ -305,6 +312,28 @@ def idle_hfd_real_scripts(rng, n):
     return S
 
 
+def idle_multi_real_instance():
+    """Realistic durations (recorded traces only): several on-idle entries pending on the same virtual key."""
+    return [VK_KEY("x"), VK_LWH(1)], {"a": cust([idle(1, "tap", 20), idle(1, "tap", 50)]),
+                                      "b": cust([idle(2, "press", 25), idle(2, "release", 60)]),      # distinct times: same-tick fires have no order
+                                      "c": cust([idle(1, "toggle", 35)]), "p": probe()}
+
+
+def idle_multi_real_scripts(rng, n):
+    C = cfgdesc.code
+    tap = lambda k, g: [["d", C(k)], ["t", g], ["u", C(k)]]
+    S = [tap("a", 2) + [["t", 160]],                                            # x tapped after 20 idle, again after 50 more
+         tap("b", 2) + [["t", 30]] + tap("p", 2) + [["t", 160]],                # layer held from 20 idle on, left after 50 more
+         tap("a", 2) + [["t", 10]] + tap("c", 2) + [["t", 200]],
+         tap("a", 2) + [["t", 25]] + tap("a", 2) + [["t", 200]]]                # re-armed after the first entry fired
+    for _ in range(n):
+        s = []
+        for _ in range(rng.randint(1, 4)):
+            s += tap(rng.choice("aabcp"), rng.choice([1, 2])) + [["t", rng.choice([1, 5, 19, 20, 21, 26, 30, 36, 49, 50, 51, 61, 80])]]
+        S.append(s + [["t", 200]])
+    return S
+
+
 def seq_instance():
     """The sequence-termination trigger (defseq): not in the L1 model; covered by recorded traces only."""
     vks = [VK_KEY("x"), VK_KEY("y")]
@@ -353,7 +382,7 @@ def run(tier, seed):
         kbd, params = make(vks, kdesc)
         keys = [cfgdesc.code(k) for k in kdesc]
         inst = mc_instance(name, kbd, params, keys, direct, max_states, qmax)
-        r = mc.check_instance(inst, wd, workers=6, timeout=1500)
+        r = mc.check_instance(inst, wd, workers=4, timeout=1500)
         res.add_instance(r)
         if len(res.samples) < 4:
             res.samples.append({"instance": name, "kbd": kbd, "direct_ops": direct, "states": r["states"],
@@ -380,6 +409,10 @@ def run(tier, seed):
     kbd, params = make(vks, kdesc)
     jobs_random.append({"cfg": kbd, "params": params, "tag": "h:hfd_real",
                         "scripts": hfd_real_scripts(rng, 20 if tier == "quick" else 200)})
+    vks, kdesc = idle_multi_real_instance()
+    kbd, params = make(vks, kdesc)
+    jobs_random.append({"cfg": kbd, "params": params, "tag": "m:idle_multi_real",
+                        "scripts": idle_multi_real_scripts(rng, 20 if tier == "quick" else 200)})
     vks, kdesc = idle_hfd_real_instance()
     kbd, params = make(vks, kdesc)
     jobs_random.append({"cfg": kbd, "params": params, "tag": "i:idle_hfd_real",
